@@ -56,7 +56,8 @@ func tail(s string, n int) string {
 type replayB struct {
 	Part    string   `json:"part"`
 	TZ      string   `json:"tz"`
-	Cluster bool     `json:"cluster"`
+	Cluster bool     `json:"cluster,omitempty"` // legacy: false = topology ss, true = cc_same
+	Topo    string   `json:"topo,omitempty"`    // ss | cc_same | cc_diff | cs (databases n1, n2)
 	Retry   int      `json:"retry_attempts"`
 	History []string `json:"history"`
 }
@@ -90,7 +91,7 @@ func main() {
 	// two explorations per configuration: "single" = pushes of one stream with one entry, bounded by history size
 	// (= depth); "shapes" = every request shape of 1-2 streams x 1-2 entries (same series twice, two series, a stream
 	// spanning two days, ...), a push costing its number of entries
-	depth, shapeEntries, shapeBudget := 4, 3, 3
+	depth, shapeEntries, shapeBudget, nodesBudget := 4, 3, 3, 3
 	retries := []int{1, 2}
 	if r.Thorough() {
 		depth, shapeEntries, shapeBudget = 5, 4, 4
@@ -100,24 +101,49 @@ func main() {
 	}
 	type job struct{ cfg bConfig }
 	var jobs, bonus []job
+	add := func(list *[]job, c bConfig) {
+		if r.Thorough() {
+			const shards = 16
+			for sh := 0; sh < shards; sh++ { // shard by first event
+				c.Shard, c.Shards = sh, shards
+				*list = append(*list, job{c})
+			}
+		} else {
+			*list = append(*list, job{c})
+		}
+	}
+	topos := []string{"ss", "cc_same", "cc_diff", "cs"}
 	for _, tz := range zones {
-		for _, cl := range []bool{false, true} {
+		// (a) two configured databases sharing the one real cache, the target database is a dimension of every push
+		for _, topo := range topos {
+			if r.Thorough() {
+				for _, rt := range retries {
+					b := nodesBudget
+					if rt == 1 && (tz == "UTC" || tz == "America/Los_Angeles") {
+						b = nodesBudget + 1
+					}
+					add(&jobs, bConfig{TZ: tz, Topo: topo, Nodes: 2, Retry: rt, Budget: b, MaxEntries: 1})
+				}
+				if tz == "UTC" {
+					add(&jobs, bConfig{TZ: tz, Topo: topo, Nodes: 2, Retry: 1, Budget: 3, MaxEntries: 2})
+				}
+			} else {
+				add(&jobs, bConfig{TZ: tz, Topo: topo, Nodes: 2, Retry: 1, Budget: nodesBudget, MaxEntries: 1})
+			}
+		}
+		// (b) one-entry pushes and (c) request shapes to one database, standalone and clustered
+		if !r.Thorough() && tz == "Pacific/Kiritimati" {
+			continue // quick: the second zone east of UTC only in (a)
+		}
+		for _, topo := range []string{"ss", "cc_same"} {
 			for _, rt := range retries {
-				if r.Thorough() {
-					const shards = 16
-					for sh := 0; sh < shards; sh++ { // shard by first event
-						jobs = append(jobs, job{bConfig{TZ: tz, Cluster: cl, Retry: rt, Budget: depth, MaxEntries: 1, Shard: sh, Shards: shards}})
-						jobs = append(jobs, job{bConfig{TZ: tz, Cluster: cl, Retry: rt, Budget: shapeBudget, MaxEntries: shapeEntries, Shard: sh, Shards: shards}})
-						if rt == 1 && (tz == "UTC" || tz == "America/Los_Angeles") && os.Getenv("VERIF_C04_DEPTH") == "" {
-							// extension: one level deeper where the zone matters (west of UTC vs. none), default retry
-							bonus = append(bonus, job{bConfig{TZ: tz, Cluster: cl, Retry: rt, Budget: depth + 1, MaxEntries: 1, Shard: sh, Shards: shards}})
-						}
-					}
-				} else {
-					jobs = append(jobs, job{bConfig{TZ: tz, Cluster: cl, Retry: rt, Budget: shapeBudget, MaxEntries: shapeEntries}})
-					if rt == 1 { // quick: the deeper single-entry exploration with the default-like retry setting only
-						jobs = append(jobs, job{bConfig{TZ: tz, Cluster: cl, Retry: rt, Budget: depth, MaxEntries: 1}})
-					}
+				add(&jobs, bConfig{TZ: tz, Topo: topo, Retry: rt, Budget: shapeBudget, MaxEntries: shapeEntries})
+				if r.Thorough() || rt == 1 { // quick: the deeper single-entry exploration with RetryAttempts=1 only
+					add(&jobs, bConfig{TZ: tz, Topo: topo, Retry: rt, Budget: depth, MaxEntries: 1})
+				}
+				if r.Thorough() && rt == 1 && (tz == "UTC" || tz == "America/Los_Angeles") && os.Getenv("VERIF_C04_DEPTH") == "" {
+					// extension: one level deeper where the zone matters (west of UTC vs. none), default retry
+					add(&bonus, bConfig{TZ: tz, Topo: topo, Retry: rt, Budget: depth + 1, MaxEntries: 1})
 				}
 			}
 		}
@@ -186,10 +212,10 @@ func main() {
 	}
 	// ---- merge part b
 	type cfgKey struct {
-		TZ      string
-		Cluster bool
-		Retry   int
-		Kind    string
+		TZ    string
+		Topo  string
+		Retry int
+		Kind  string
 	}
 	distinct := map[cfgKey]map[uint64]struct{}{}
 	perCfg := map[string]map[string]any{}
@@ -206,7 +232,10 @@ func main() {
 		if res.Config.MaxEntries > 1 {
 			kind = fmt.Sprintf("shapes(%d entries)<=%d", res.Config.MaxEntries, res.Config.Budget)
 		}
-		k := cfgKey{res.Config.TZ, res.Config.Cluster, res.Config.Retry, kind}
+		if res.Config.Nodes >= 2 {
+			kind = "2 target databases, " + kind
+		}
+		k := cfgKey{res.Config.TZ, res.Config.topo(), res.Config.Retry, kind}
 		if distinct[k] == nil {
 			distinct[k] = map[uint64]struct{}{}
 		}
@@ -215,7 +244,7 @@ func main() {
 		}
 		r.Transitions += res.Transitions
 		r.TracesValidated += res.Requests
-		name := fmt.Sprintf("TZ=%s cluster=%v retry=%d %s", k.TZ, k.Cluster, k.Retry, k.Kind)
+		name := fmt.Sprintf("TZ=%s topology=%s retry=%d %s", k.TZ, k.Topo, k.Retry, k.Kind)
 		m := perCfg[name]
 		if m == nil {
 			m = map[string]any{"transitions": int64(0), "requests": int64(0), "inserts": int64(0), "max_depth": 0, "zone_offset_s": res.ZoneOffsetS, "frontier_left": 0}
@@ -252,7 +281,7 @@ func main() {
 	}
 	for k, m := range distinct {
 		r.States += int64(len(m))
-		perCfg[fmt.Sprintf("TZ=%s cluster=%v retry=%d %s", k.TZ, k.Cluster, k.Retry, k.Kind)]["distinct_states"] = len(m)
+		perCfg[fmt.Sprintf("TZ=%s topology=%s retry=%d %s", k.TZ, k.Topo, k.Retry, k.Kind)]["distinct_states"] = len(m)
 	}
 	for o, n := range outcomes {
 		for i := int64(0); i < n && i < 1; i++ {
@@ -263,6 +292,7 @@ func main() {
 		fmt.Sprintf("single: pushes of one stream with one entry (2 series x %d day classes), history size (= depth) <= %d", len(dayClasses), depth),
 		fmt.Sprintf("shapes: every request of 1-2 streams x 1-2 entries with <= %d entries in total (%d push events), history size <= %d where a push costs its number of entries", shapeEntries, len(pushEvents(shapeEntries)), shapeBudget),
 	}
+	r.Extra["b_topologies"] = "two configured databases n1/db1 and n2/db2 sharing the one real numbercache: ss both standalone, cc_same both in cluster c1, cc_diff clusters c1/c2, cs n1 clustered + n2 standalone; explorations marked '2 target databases' have every push event for either database (push@n2:...), size <= " + fmt.Sprint(nodesBudget) + "; the others push to n1 only"
 	r.Extra["b_day_classes"] = dayClasses
 	r.Extra["b_control_events"] = controlEvents
 	r.Extra["b_configurations"] = perCfg
@@ -284,8 +314,8 @@ func main() {
 			if len(vs[i].History) != len(vs[j].History) {
 				return len(vs[i].History) < len(vs[j].History)
 			}
-			a, _ := json.Marshal([]any{vs[i].cfg.TZ, vs[i].cfg.Cluster, vs[i].cfg.Retry, vs[i].History})
-			b, _ := json.Marshal([]any{vs[j].cfg.TZ, vs[j].cfg.Cluster, vs[j].cfg.Retry, vs[j].History})
+			a, _ := json.Marshal([]any{vs[i].cfg.TZ, vs[i].cfg.topo(), vs[i].cfg.Retry, vs[i].History})
+			b, _ := json.Marshal([]any{vs[j].cfg.TZ, vs[j].cfg.topo(), vs[j].cfg.Retry, vs[j].History})
 			return string(a) < string(b)
 		})
 		for i, v := range vs {
@@ -293,7 +323,7 @@ func main() {
 				break
 			}
 			r.Violate(c, fmt.Sprintf("%s; history %v (%d states in violation of this class)", v.What, v.History, classCount[c]),
-				replayB{"b", v.cfg.TZ, v.cfg.Cluster, v.cfg.Retry, v.History})
+				replayB{Part: "b", TZ: v.cfg.TZ, Topo: v.cfg.topo(), Retry: v.cfg.Retry, History: v.History})
 		}
 	}
 	r.Finish()
@@ -365,7 +395,7 @@ func replay(r *ev.Run) {
 		if err := json.Unmarshal(doc.Replay, &rp); err != nil {
 			ev.Fatal("replay: %v", err)
 		}
-		res, err := runWorker(context.Background(), bConfig{TZ: rp.TZ, Cluster: rp.Cluster, Retry: rp.Retry, History: rp.History}, time.Time{})
+		res, err := runWorker(context.Background(), bConfig{TZ: rp.TZ, Cluster: rp.Cluster, Topo: rp.Topo, Retry: rp.Retry, History: rp.History}, time.Time{})
 		if err != nil {
 			ev.Fatal("replay: %v", err)
 		}
@@ -374,7 +404,7 @@ func replay(r *ev.Run) {
 			steps = append(steps, k)
 		}
 		sort.Strings(steps)
-		fmt.Printf("replay part b: TZ=%s cluster=%v retry=%d steps=%v verdict=%s\n", rp.TZ, rp.Cluster, rp.Retry, steps, res.Verdict)
+		fmt.Printf("replay part b: TZ=%s topology=%s retry=%d steps=%v verdict=%s\n", rp.TZ, res.Config.topo(), rp.Retry, steps, res.Verdict)
 		r.States, r.Transitions = 1, int64(len(rp.History))
 		r.TracesValidated = res.Requests
 		for _, v := range res.Violations {
